@@ -156,6 +156,10 @@ def symptoms(r):
     window nodes)."""
     cfg = r["cfg"]
     k = cfg.get("kind")
+    if k == "partition":
+        # a batch larger than n, whatever else happened
+        if any(e["ev"] == "deliver" and len(e["x"]) > cfg["n"] for e in r["ev"]):
+            return ["C08", "C02"]
     if cfg.get("faults") or k not in ("buffer", "delay", "rate_limit", "map_async", "partition", "timed_window"):
         return []
     end = [e for e in r["ev"] if e["ev"] == "end"]
